@@ -686,7 +686,7 @@ pub fn exec(input: &Value) -> Value {
     let first = trace_once(opts, &samples, items);
     let mut perm_impl = Vec::new();
     for p in input["perms"].as_array().unwrap() {
-        let order: Vec<&Value> = p.as_array().unwrap().iter().map(|i| samples[i.as_u64().unwrap() as usize]).collect();
+        let order: Vec<&Value> = p.as_array().unwrap().iter().filter_map(|i| samples.get(i.as_u64().unwrap() as usize).copied()).collect();
         perm_impl.push(trace_once(opts, &order, items));
     }
     // C06: the traced schema must accept the samples it was traced from
